@@ -1131,6 +1131,13 @@ func planC07(prop string, seed uint64, tier string, idx int) *Plan {
 
 // C08: upload sessions.
 func planC08(prop string, seed uint64, tier string, idx int) *Plan {
+	if idx%10 == 9 {
+		// the concurrent liveness workload (uploads racing with expiry, eviction and collection): a request on a session
+		// that ends under it is refused (4xx), never answered 5xx with healthy storage (11.3: 5cf725d, d77085d, 1356d8a)
+		p := planC12(prop, seed, tier, idx/10*5)
+		p.Profile = strings.TrimSuffix(p.Profile, " (close in flight)") + " (concurrent sessions for C08)"
+		return p
+	}
 	g := newGen(seed, tier)
 	g.p.Profile = "sessions"
 	g.repos(g.r.between(1, 2))
